@@ -202,4 +202,65 @@ theorem bothAfter_cur (m : Mode) (v : View) (wf : v.WF) (fshape : List Nat) (fp 
     simp only [bothAfter, iterateBothV, FilterIter.stateAfter, FilterIter.step]
     rw [ih (by omega), bothAfter_it, posRev_eq_iter_pos m v wf fshape fp hlen ha hf k hk, incrN_eq v wf.len k hk]
 
+/-! ### majority_filter: pointwise form -/
+
+/-- a loop that only ever stores `some true`: a cell is `some true` afterwards iff it was before or some iteration whose
+condition holds stored there -/
+theorem foldl_mark {α : Type} (l : List α) (idx : α → Nat) (cond : α → Prop) [DecidablePred cond]
+    (init : Array (Option Bool)) (i : Nat) :
+    (l.foldl (fun res a => if cond a then res.setIfInBounds (idx a) (some true) else res) init).getD i none =
+      if i < init.size ∧ l.any (fun a => decide (cond a) && idx a == i) = true then some true else init.getD i none := by
+  induction l generalizing init with
+  | nil => simp
+  | cons a t ih =>
+    simp only [List.foldl_cons, List.any_cons]
+    rw [ih]
+    by_cases hc : cond a
+    · simp only [hc, if_true, decide_true, Bool.true_and, Array.size_setIfInBounds]
+      by_cases he : idx a = i
+      · by_cases hi : i < init.size
+        · simp [he, hi, Array.getD_eq_getD_getElem?, Array.getElem?_setIfInBounds]
+        · simp [he, hi, Array.getD_eq_getD_getElem?, Array.getElem?_setIfInBounds]
+      · have hne : (idx a == i) = false := by simp [he]
+        simp only [hne, Bool.false_or]
+        have : (init.setIfInBounds (idx a) (some true)).getD i none = init.getD i none := by
+          simp [Array.getD_eq_getD_getElem?, Array.getElem?_setIfInBounds, he]
+        rw [this]
+    · simp only [hc, if_false, decide_false, Bool.false_and, Bool.false_or]
+
+/-- **pointwise form of `py_majority_filter`**: cell `i` of the output is `true` iff some visited window `(y, x)`
+(`y < rows−N`, `x < cols−N`) whose count reaches `N*N/2` has its output position `(y+N/2)*cols + N/2 + x` equal to `i`;
+every other cell is `false` (the zero fill) -/
+theorem majorityLoops_spec (rows cols n : Nat) (px : Nat → Nat → Bool) (hr : n ≤ rows) (hc : n ≤ cols) (i : Nat)
+    (hi : i < rows * cols) :
+    (majorityLoops rows cols n px).getD i none =
+      some ((List.range (rows - n)).any fun y => (List.range (cols - n)).any fun x =>
+        decide (majorityCount n px y x ≥ n * n / 2) && ((y + n / 2) * cols + n / 2 + x == i)) := by
+  unfold majorityLoops
+  have hb : (decide (rows < n) || decide (cols < n)) = false := by simp; omega
+  simp only [hb, Bool.false_eq_true, if_false]
+  -- flatten the two loops into one loop over the windows in visiting order
+  have hflat : ∀ init : Array (Option Bool),
+      (List.range (rows - n)).foldl (fun res y =>
+        (List.range (cols - n)).foldl (fun res x =>
+          if majorityCount n px y x ≥ n * n / 2 then res.setIfInBounds ((y + n / 2) * cols + n / 2 + x) (some true)
+          else res) res) init =
+      (((List.range (rows - n)).flatMap fun y => (List.range (cols - n)).map fun x => (y, x))).foldl
+        (fun res (a : Nat × Nat) =>
+          if majorityCount n px a.1 a.2 ≥ n * n / 2 then res.setIfInBounds ((a.1 + n / 2) * cols + n / 2 + a.2) (some true)
+          else res) init := by
+    intro init
+    rw [List.foldl_flatMap]
+    congr 1
+    funext res y
+    rw [List.foldl_map]
+  rw [hflat, foldl_mark _ (fun a : Nat × Nat => (a.1 + n / 2) * cols + n / 2 + a.2)
+    (fun a : Nat × Nat => majorityCount n px a.1 a.2 ≥ n * n / 2)]
+  have hsz : i < (Array.replicate (rows * cols) (some false) : Array (Option Bool)).size := by simpa using hi
+  have hget : (Array.replicate (rows * cols) (some false) : Array (Option Bool)).getD i none = some false := by
+    simp [Array.getD_eq_getD_getElem?, hi]
+  rw [hget]
+  simp only [hsz, true_and, List.any_flatMap, List.any_map, Function.comp_def]
+  split <;> rename_i h <;> simp_all
+
 end Mahotas.C08
